@@ -47,11 +47,16 @@ def lexLt : List Nat → List Nat → Bool
   | _ :: _, [] => false
   | a :: as, b :: bs => a < b || (a == b && lexLt as bs)
 
-/-- `i` is the first row of `rows` that no row is below / above (in `lexLt`) -/
-def IsFirstMin (rows : List (List Nat)) (i : Nat) : Prop :=
-  ∃ r, rows[i]? = some r ∧ (∀ s ∈ rows, lexLt s r = false) ∧ ∀ j s, j < i → rows[j]? = some s → lexLt r s = true
+/-- within the rows `[a, b)` of a string column, `r` is the FIRST row that no row is below (in `lexLt`) -/
+def IsFirstMinIn (rows : List (List Nat)) (a b r : Nat) : Prop :=
+  a ≤ r ∧ r < b ∧ ∃ row, rows[r]? = some row ∧
+    (∀ t s, a ≤ t → t < b → rows[t]? = some s → lexLt s row = false) ∧
+    (∀ t s, a ≤ t → t < r → rows[t]? = some s → lexLt row s = true)
 
-def IsFirstMax (rows : List (List Nat)) (i : Nat) : Prop :=
-  ∃ r, rows[i]? = some r ∧ (∀ s ∈ rows, lexLt r s = false) ∧ ∀ j s, j < i → rows[j]? = some s → lexLt s r = true
+/-- within the rows `[a, b)`, `r` is the FIRST row that no row is above -/
+def IsFirstMaxIn (rows : List (List Nat)) (a b r : Nat) : Prop :=
+  a ≤ r ∧ r < b ∧ ∃ row, rows[r]? = some row ∧
+    (∀ t s, a ≤ t → t < b → rows[t]? = some s → lexLt row s = false) ∧
+    (∀ t s, a ≤ t → t < r → rows[t]? = some s → lexLt s row = true)
 
 end Exetera.Spec
